@@ -49,7 +49,7 @@ func (g *c18gen) open() {
 }
 func (g *c18gen) close() { g.scopes = g.scopes[:len(g.scopes)-1] }
 
-var c18names = []string{"x", "y", "z"}
+var c18names = []string{"x", "y", "z", "rv"} // rv lives in the VarMap given to Execute (the outermost scope)
 
 func (g *c18gen) op() {
 	pool := c18names
@@ -245,6 +245,7 @@ func c18vars(log *[]string, empty bool) jet.VarMap {
 		return reflect.ValueOf(a.Runtime().Resolve(str(a, 0)).Kind().String())
 	})
 	vars.SetFunc("kindof", func(a jet.Arguments) reflect.Value { return reflect.ValueOf(a.Get(0).Kind().String()) })
+	vars.Set("rv", "rv0")
 	vars.Set("ifs", []interface{}{"ia", 7})
 	vars.Set("ifm", map[string]interface{}{"only": "mv"})
 	vars.SetFunc("yieldblock", func(a jet.Arguments) reflect.Value {
@@ -274,7 +275,7 @@ func c18run(c *fw.Ctx, idx int) {
 	}
 	g := &c18gen{r: r, feat: map[string]bool{}, allowFail: idx%2 == 0}
 	g.files = [2]map[string]string{{}, {}}
-	g.scopes = []map[string]bool{{}}
+	g.scopes = []map[string]bool{{"rv": true}}
 	// "cell" blocks that render the content of whoever is being rendered: yielded (from Go or from the template)
 	// inside a block that was itself yielded with content, they show that content
 	for i := 0; i < idx%3; i++ {
@@ -287,6 +288,7 @@ func c18run(c *fw.Ctx, idx int) {
 	for _, gn := range g.globals {
 		g.both(fmt.Sprintf(`[end %s={{ %s }}]`, gn, gn))
 	}
+	g.both(`[end rv={{ rv }}]`)
 	pre := ""
 	for _, gn := range g.globals {
 		pre += fmt.Sprintf(`{{ %s := "unset" }}`, gn)
